@@ -22,7 +22,7 @@ import lib
 
 ID = 'C16'
 PROPS_FILE = 'Props/C16.v'
-MODEL_FILES = ['Funcs/Funcs.v', 'Funcs/FuncsConv.v', 'Funcs/EvalIdx.v', 'Funcs/FuncsF.v']
+MODEL_FILES = ['Funcs/Funcs.v', 'Funcs/FuncsConv.v', 'Funcs/EvalIdx.v', 'Funcs/EvalIdxNegStep.v', 'Funcs/FuncsF.v']
 K_NAME = ('K_helpers (Funcs.observe over PrimFloat / Z vs fsic.functions.lag/lead/diff/dlog) + K_rewrite (EvalIdx.eval_text / rewrite, '
           'extracted to OCaml, vs VectorContainer._resolve_expression_indexes: string equality) + K_namespace (EvalIdx.eval_M vs eval()) '
           '+ K_int (EvalIdx.parse_int_raw / parse_pyint vs CPython int(s) / int(s.strip()))')
@@ -32,7 +32,7 @@ RULE = ('helpers: every array length 0..6 (thorough 0..9) x every shift -n-2..n+
         'indexes/slices (open ends, steps, missing labels, whitespace), mixed label/integer slices, labels that do not stand alone in their '
         'bracket (nested list subscript, parentheses, slice broken across lines), caller locals shadowing a helper AND a variable in the same '
         'expression, labels outside Latin-1 (oracle only) over range / str list / int list / NumPy int+str / pandas Index / '
-        'PeriodIndex Y+Q spans, plus a systematic catalogue (79 label brackets x 51 positional brackets per span type: every bracket alone, '
+        'PeriodIndex Y+Q spans, plus a systematic catalogue (104 label brackets x 51 positional brackets per span type: every bracket alone, '
         'label x positional pairs: all in thorough, 300 per span type in quick); raw strings: all strings up to length 4 (thorough 5) over an 8-symbol bracket alphabet + random longer ones; '
         'namespace: every subset pattern of {locals, variable, helper/builtins=} for the queried name; int(): each of the 256 Latin-1 '
         'codes as left / right / inner padding of a digit string + random digit/sign/underscore/space strings. Non-trivial = helper call on a '
@@ -62,6 +62,8 @@ FUNCS = ['lag', 'lead', 'diff', 'dlog']
 HELPER_NAMES = ['diff', 'dlog', 'exp', 'lag', 'lead', 'log']
 LEAK_NAMES = ['np', 'copy', 're', 'warnings', 'difflib', '_builtins', 'VectorContainer', 'abs', 'len', 'print']   # globals of fsic/core/containers.py, Python builtins
 SIG_NEST = 'C16|eval→_resolve_expression_indexes|label-not-alone-in-its-bracket'
+SIG_MIXED = 'C16|eval→_resolve_expression_indexes|mixed-slice-integer-end'
+SIG_NEGSTEP = 'C16|eval→_resolve_expression_indexes|label-slice-negative-step'
 SIG26 = 'C16|diff(x,0)|returns-x-not-zeros'
 SIG_LEAK = 'C16|eval(globals=None)|module-global-visible'
 SIG_LBL = 'C16|eval→_resolve_expression_indexes|label-with-colon-bracket-or-backtick'
@@ -90,10 +92,19 @@ def _exc(e):
     return ['raise', type(e).__name__]
 
 
+OTHER_DTYPES = ('f4', 'b', 'O')      # float32 / bool / object arrays: judged by the oracle only (outside the Coq instances)
+
+
 def _mk_array(case):
     import numpy as np
     if case['dtype'] == 'f':
         a = np.array([lib.unhex(v) for v in case['x']], dtype=float)
+    elif case['dtype'] == 'f4':
+        a = np.array([lib.unhex(v) for v in case['x']], dtype=np.float32)
+    elif case['dtype'] == 'b':
+        a = np.array([bool(v) for v in case['x']], dtype=bool)
+    elif case['dtype'] == 'O':
+        a = np.array([lib.unhex(v) for v in case['x']], dtype=object)
     else:
         a = np.array(case['x'], dtype=np.int64)
     if case['rank'] == 0:
@@ -104,7 +115,7 @@ def _mk_array(case):
 
 
 def _fill(case):
-    if case['dtype'] == 'f':
+    if case['dtype'] == 'f' or case['dtype'] in OTHER_DTYPES:
         return lib.unhex(case['fill'])
     if isinstance(case['fill'], dict):                 # an int64 array with a float fill value
         return lib.unhex(case['fill']['f'])
@@ -116,6 +127,8 @@ def _vals(a, dtype):
     flat = np.asarray(a).reshape(-1)
     if flat.dtype.kind == 'f':
         return [lib.fhex(x) for x in flat]
+    if flat.dtype.kind == 'O':
+        return [lib.fhex(x) if isinstance(x, float) else int(x) for x in flat]
     return [int(x) for x in flat]
 
 
@@ -173,27 +186,69 @@ def _span(spec):
         s = pd.Index(labels)
     elif t == 'period':
         import pandas as pd
-        s = pd.period_range(start=spec['start'], periods=len(labels), freq=spec['freq'])
-        assert [str(p) for p in s] == labels, (list(map(str, s)), labels)
+        if spec.get('pandas') == 'datetime':
+            s = pd.date_range(start=spec['start'], periods=len(labels), freq=spec['freq'])
+            assert [str(p.date()) for p in s] == labels, (list(map(str, s)), labels)
+        else:
+            s = pd.period_range(start=spec['start'], periods=len(labels), freq=spec['freq'])
+            assert [str(p) for p in s] == labels, (list(map(str, s)), labels)
     else:
         raise AssertionError(t)
     _SPANS[key] = s
     return s
 
 
+_MODEL_CLASSES = {}
+
+
+def _model_class(kind):
+    """a BaseModel with the variables X, Z, lagged, x_1 (exogenous), Y (endogenous) and its own status (<U1) / iterations (int)
+    series; kind 'alias': the same with AliasMixin aliases GDP -> Y, EXO -> X (aliases are NOT names of the index)"""
+    if kind not in _MODEL_CLASSES:
+        import fsic
+        base = fsic.build_model(fsic.parse_model('Y = X + Z + lagged + x_1'))
+        if kind == 'alias':
+            from fsic.extensions import AliasMixin
+            base = type('AliasedModel', (AliasMixin, base), {'ALIASES': {'GDP': 'Y', 'EXO': 'X'}})
+        _MODEL_CLASSES[kind] = base
+    return _MODEL_CLASSES[kind]
+
+
 def _container(case):
     import numpy as np
     from fsic.core.containers import VectorContainer
+    if case.get('model'):
+        c = _model_class(case['model'])(_span(case['span']))
+        for name, vals in case['vars']:
+            c[name] = np.array([lib.unhex(v) for v in vals], dtype=float)
+        return c
     c = VectorContainer(_span(case['span']))
     for name, vals in case['vars']:
         c.add_variable(name, np.array([lib.unhex(v) for v in vals], dtype=float))
     return c
 
 
+def _dump_series(c):
+    """every series of the container's index: [name, kind, values] (the INPUT of the reference evaluation for model containers)"""
+    out = []
+    for k in c.__dict__['index']:
+        a = c.__dict__['_' + k]
+        if a.dtype.kind == 'f':
+            out.append([k, 'f', [lib.fhex(x) for x in a]])
+        elif a.dtype.kind in 'iu':
+            out.append([k, 'i', [int(x) for x in a]])
+        else:
+            out.append([k, 's', [str(x) for x in a]])
+    return out
+
+
 def _snapshot(c):
-    return {'span': id(c.__dict__['span']), 'index': list(c.__dict__['index']), 'attrs': list(c.__dict__['_attributes']),
-            'keys': sorted(c.__dict__.keys()),
-            'vars': [(k, id(c.__dict__['_' + k]), c.__dict__['_' + k].tobytes(), str(c.__dict__['_' + k].dtype)) for k in c.__dict__['index']]}
+    """what "the container" is for the statement: its span (by value), the names of its variables, and every series (dtype, shape,
+    contents).  Private layout (object ids, further keys of __dict__ such as a cache) is not part of it."""
+    def cells(a):
+        return a.tobytes() if a.dtype.kind != 'O' else repr(a.tolist())
+    return {'span': [repr(x) for x in c.__dict__['span']], 'index': list(c.__dict__['index']),
+            'vars': [(k, cells(c.__dict__['_' + k]), str(c.__dict__['_' + k].dtype), c.__dict__['_' + k].shape) for k in c.__dict__['index']]}
 
 
 def _table_snapshot():
@@ -226,7 +281,7 @@ def _loc_canon(r):
 
 def _attr_err(e):
     """['raise', 'AttributeError', <the undefined name CPython reported>, <the message names exactly that attribute>]"""
-    cause = e.__cause__
+    cause = e.__cause__ or e.__context__                 # (explicit `from e` or implicit chaining: the statement does not care)
     name = getattr(cause, 'name', None) if isinstance(cause, NameError) else None
     # the message must NAME the undefined identifier (as a whole word); its wording is free
     named = name is not None and re.search(r'(?<![A-Za-z0-9_])%s(?![A-Za-z0-9_])' % re.escape(name), str(e).split('Did you mean')[0]) is not None
@@ -271,6 +326,8 @@ def _eval_obs(c, case):
     loc_before = None if loc is None else {k: (id(v), v.tobytes() if hasattr(v, 'tobytes') else v) for k, v in loc.items()}
     before, tb = _snapshot(c), _table_snapshot()
     obs = {}
+    if case.get('model'):
+        obs['series'] = _dump_series(c)
     if case['span']['type'] == 'period':
         tab = []
         span = c.span
@@ -301,7 +358,7 @@ def _eval_obs(c, case):
         obs['eval'] = _exc(e)
     obs['locals_same'] = loc is None or loc_before == {k: (id(v), v.tobytes() if hasattr(v, 'tobytes') else v) for k, v in loc.items()}
     obs['container_same'] = _snapshot(c) == before
-    obs['table_same'] = _table_snapshot() == tb and _table_ok()
+    obs['table_same'] = _table_snapshot() == tb
     return obs
 
 
@@ -346,7 +403,9 @@ def impl_text(case):
         return {'text': _exc(e)}
 
 
-def _outer_has(name):
+def _outer_has(name, case=None):
+    if case is not None and case.get('globals_empty'):
+        return False                                       # eval(..., globals={'__builtins__': {}}): nothing outside the namespace
     import builtins as B
     import fsic.core.containers as M
     return name in vars(M) or hasattr(B, name)
@@ -382,6 +441,8 @@ def impl_ns(case):
     if case['bi'] is not None:
         bi = {k: _Tag('B:' + k) for k in case['bi']}
         kw['builtins'] = bi
+    if case.get('globals_empty'):
+        kw['globals'] = {'__builtins__': {}}
     before, tb = _snapshot(c), _table_snapshot()
     locals_before = dict(kw['locals']) if 'locals' in kw else None
 
@@ -395,7 +456,7 @@ def impl_ns(case):
         for k, v in F.builtins.items():
             if r is v:
                 return 'T:' + k
-        if _outer_has(case['name']) and _outer_get(case['name']) is r:
+        if _outer_has(case['name'], case) and _outer_get(case['name']) is r:
             return 'G:' + case['name']                     # a module global of containers.py / a Python builtin
         return 'O:' + type(r).__name__
     try:
@@ -404,9 +465,9 @@ def impl_ns(case):
         out = _attr_err(e)
     except Exception as e:
         out = _exc(e)
-    return {'out': out, 'container_same': _snapshot(c) == before, 'table_same': _table_snapshot() == tb and _table_ok(),
+    return {'out': out, 'container_same': _snapshot(c) == before, 'table_same': _table_snapshot() == tb,
             'table_keys': [k for k, _ in tb],
-            'outer': [n for n in sorted({case['name'], 'np', 'abs', 'nope'}) if _outer_has(n)],
+            'outer': [n for n in sorted({case['name'], 'np', 'abs', 'nope'}) if _outer_has(n, case)],
             'bi_after': None if bi is None else [[k, tag(v)] for k, v in bi.items()],
             'locals_same': locals_before is None or kw['locals'] == locals_before}
 
@@ -479,7 +540,13 @@ def _pos_of(span, lab):
             hits = [i for i, x in enumerate(labels) if x.startswith(str(lab) + 'Q')]
             if hits:
                 return (hits[0], hits[-1] + 1)
+        if span.get('pandas') == 'datetime' and re.fullmatch(r'\d{4}-\d{2}', str(lab)):      # a month of a daily index
+            hits = [i for i, x in enumerate(labels) if x.startswith(str(lab) + '-')]
+            if hits:
+                return (hits[0], hits[-1] + 1)
         raise KeyError(lab)
+    if span['type'] == 'np' and sum(1 for x in labels if x == lab and type(x) is type(lab)) > 1:
+        raise KeyError(lab)                              # the NumPy fallback lookup refuses a repeated label
     for i, x in enumerate(labels):
         if x == lab and type(x) is type(lab):
             return i
@@ -517,6 +584,16 @@ def render_bracket(br, mode, span):
                 parts.append(pad(s, 2))
             return '[' + ':'.join(parts) + ']'
         a = b = ''
+        if s is not None and int(s) < 0:
+            # a descending label slice, inclusive at both ends (what pandas' .loc[la:lb:-1] selects)
+            if la is not None:
+                p = _pos_of(span, la)
+                a = str(p[1] - 1 if isinstance(p, tuple) else p)
+            if lb is not None:
+                p = _pos_of(span, lb)
+                q = (p[0] if isinstance(p, tuple) else p) - 1
+                b = str(q) if q >= 0 else ''
+            return '[' + a + ':' + b + ':' + s + ']'
         if la is not None:
             p = _pos_of(span, la)
             a = str(p[0] if isinstance(p, tuple) else p)
@@ -525,11 +602,23 @@ def render_bracket(br, mode, span):
             b = str(p[1] if isinstance(p, tuple) else p + 1)
         return '[' + a + ':' + b + (':' + s if s is not None else '') + ']'
     if k == 'mx':                          # ('mx', ('L', label) | ('P', text), ('L', label) | ('P', text), w): mixed slice
-        if mode != 'expr':
-            raise _Mixed()
         def item(x, i):
             return pad(_label_text(x[1]) if x[0] == 'L' else x[1], i)
-        return '[' + item(br[1], 0) + ':' + item(br[2], 1) + ']'
+        if mode == 'expr':
+            return '[' + item(br[1], 0) + ':' + item(br[2], 1) + ']'
+        # intended meaning: the label end as label indexing reads it (stop inclusive), the integer end as Python reads it
+        a, b = br[1], br[2]
+        if a[0] == 'L':
+            p = _pos_of(span, a[1])
+            ta = str(p[0] if isinstance(p, tuple) else p)
+        else:
+            ta = a[1]
+        if b[0] == 'L':
+            p = _pos_of(span, b[1])
+            tb_ = str(p[1] if isinstance(p, tuple) else p + 1)
+        else:
+            tb_ = b[1]
+        return '[' + ta + ':' + tb_ + ']'
     if k == 'lp':                          # ('lp', label, w): the label in parentheses
         if mode == 'expr':
             return '[(' + _label_text(br[1]) + ')]'
@@ -546,10 +635,6 @@ def render_bracket(br, mode, span):
         pa, pb = _pos_of(span, br[1]), _pos_of(span, br[2])
         return '[%d:%d]' % (pa[0] if isinstance(pa, tuple) else pa, pb[1] if isinstance(pb, tuple) else pb + 1)
     raise AssertionError(br)
-
-
-class _Mixed(Exception):
-    """a slice mixing a label and a plain integer: the statement does not say whether the integer end is inclusive"""
 
 
 NOT_ALONE = ('lp', 'll', 'lnl')
@@ -629,7 +714,8 @@ def labels_of(ast):
     return out
 
 
-SPAN_KINDS = ['range', 'strlist', 'intlist', 'mixlist', 'np_int', 'np_str', 'pd_int', 'pd_str', 'period_Y', 'period_Q']
+SPAN_KINDS = ['range', 'strlist', 'intlist', 'mixlist', 'np_int', 'np_str', 'pd_int', 'pd_str', 'period_Y', 'period_Q',
+              'duplist', 'dupnp', 'datetime_D']
 
 
 def make_span(rng, kind=None):
@@ -652,6 +738,16 @@ def make_span(rng, kind=None):
     if kind == 'mixlist':
         pool = [2000, 2001, 'a', 'b', 7, 'c7']
         return {'kind': kind, 'type': 'list', 'labels': rng.sample(pool, n)}
+    if kind in ('duplist', 'dupnp'):
+        # repeated labels: list.index finds the first; the NumPy fallback refuses a repeated label (KeyError) — on both paths
+        base = rng.choice([['a', 'b', 'a', 'c', 'b', 'd'], [2000, 2001, 2000, 2002, 2003, 2001]])
+        return {'kind': kind, 'type': 'list' if kind == 'duplist' else 'np', 'labels': base[:max(n, 3)]}
+    if kind == 'datetime_D':
+        import datetime
+        n = rng.randint(3, 7)
+        d0 = datetime.date(2000, 1, 31 - rng.randint(0, 3))
+        labs = [str(d0 + datetime.timedelta(days=i)) for i in range(n)]
+        return {'kind': kind, 'type': 'period', 'pandas': 'datetime', 'freq': 'D', 'start': labs[0], 'labels': labs}
     if kind == 'period_Y':
         return {'kind': kind, 'type': 'period', 'freq': 'Y', 'start': '2000', 'labels': [str(2000 + i) for i in range(n)]}
     if kind == 'period_Q':
@@ -676,6 +772,8 @@ def gen_label(rng, span, allow_missing=True):
         return rng.choice(['zz', 1234, '9999', 'A']) if span['type'] != 'period' else rng.choice(['1990', '2050Q1', 'zz'])
     if span['type'] == 'period' and span['freq'] == 'Q' and r < 0.3:
         return rng.choice(labs)[:4]                      # a year: partial-string label of a quarterly index
+    if span['type'] == 'period' and span.get('pandas') == 'datetime' and r < 0.3:
+        return rng.choice(labs)[:7]                      # a month: partial-string label of a daily index
     return rng.choice(labs)
 
 
@@ -780,9 +878,14 @@ def make_expr_case(rng, style=None, opts=None):
         vals = [rng.choice([1.0, 2.0, 0.5, 3.0, 4.0, 10.0, 0.25, 7.0, -1.0, 0.0]) + (0.0 if rng.random() < 0.5 else float(j)) for j in range(n)]
         vars_.append([nm, [lib.fhex(v) for v in vals]])
     style = style or rng.choice(['pos', 'lab', 'lab', 'mix', 'mix'])
-    ast = gen_ast(rng, span, names, rng.randint(0, 3), style, opts)
+    gen_names = names + (['iterations', 'iterations', 'status'] if opts.get('model') else [])
+    if opts.get('model') == 'alias':
+        gen_names = gen_names + ['GDP', 'EXO']              # aliases: not names of the index, hence not bound
+    ast = gen_ast(rng, span, gen_names, rng.randint(0, 3), style, opts)
     expr = render(ast, None, 'expr', span)
     case = {'kind': 'expr', 'span': span, 'vars': vars_, 'ast': ast, 'expr': expr, 'style': style}
+    if opts.get('model'):
+        case['model'] = opts['model']
     if span['type'] == 'period':
         case['probe'] = probe_labels(expr)
     if opts.get('locals'):
@@ -847,6 +950,14 @@ def gen_helpers(rng, tier):
             for fill in (0, -7):
                 for f in ('lag', 'lead', 'diff'):
                     cases.append({'kind': 'helper', 'f': f, 'dtype': 'i', 'rank': 1, 'x': xi, 'p': p, 'fill': fill})
+    # float32 / bool / object arrays (oracle only)
+    for n in range(0, 4):
+        for dt, xs in (('f4', [lib.fhex(0.5 * (j + 1)) for j in range(n)]), ('b', [j % 2 for j in range(n)]),
+                       ('O', [lib.fhex(1.5 * (j + 1)) for j in range(n)])):
+            for p in range(-n - 1, n + 2):
+                for fl in (float('nan'), -1.0, 0.0):
+                    for f in (('lag', 'lead') if dt == 'b' else ('lag', 'lead', 'diff')):
+                        cases.append({'kind': 'helper', 'f': f, 'dtype': dt, 'rank': 1, 'x': xs, 'p': p, 'fill': lib.fhex(fl)})
     # int64 arrays with float fill values: the default NaN, infinities, fractional and integral floats (cast by NumPy)
     for n in range(0, 4 if tier == 'quick' else 7):
         xi = [rng.randint(-9, 9) for _ in range(n)]
@@ -885,6 +996,11 @@ def gen_ns(rng, tier):
         cases.append({'kind': 'ns', 'vars': vars_, 'locals': locals_, 'bi': bi, 'name': rng.choice(pool + ['exp', 'dlog', 'nope', 'np', 'abs', 'copy'])})
     for nm in LEAK_NAMES:
         cases.append({'kind': 'ns', 'vars': ['X'], 'locals': None, 'bi': None, 'name': nm})
+        # the same names with the caller's own globals: nothing leaks, AttributeError naming the name
+        cases.append({'kind': 'ns', 'vars': ['X'], 'locals': None, 'bi': None, 'name': nm, 'globals_empty': True})
+    for nm in ['X', 'lag', 'nope']:
+        for loc in (None, [nm]):
+            cases.append({'kind': 'ns', 'vars': ['X'], 'locals': loc, 'bi': None, 'name': nm, 'globals_empty': True})
     return cases
 
 
@@ -896,7 +1012,7 @@ def gen_sem(rng, tier):
             cases.append({'kind': 'sem', 'n': n, 'inner': i})
         for a in ints:
             for b in ints:
-                for s in (None, '', '1', '2', '3'):
+                for s in (None, '', '1', '2', '3', '-1', '-2', '0'):
                     if rng.random() < (0.25 if tier == 'quick' else 1.0):
                         parts = [a or '', b or ''] + ([] if s is None else [s])
                         cases.append({'kind': 'sem', 'n': n, 'inner': ':'.join(parts)})
@@ -917,7 +1033,7 @@ def gen_enum(rng, tier):
     for sp, labs in spans:
         n = len(sp['labels'])
         vars_ = [['X', [lib.fhex(float(j + 1)) for j in range(n)]], ['Y', [lib.fhex(10.0 * (j + 1)) for j in range(n)]]]
-        lab_br = [('li', l, w0) for l in labs] + [('ls', a, b, st, w0) for a in [None] + labs for b in [None] + labs for st in (None, '1', '2')]
+        lab_br = [('li', l, w0) for l in labs] + [('ls', a, b, st, w0) for a in [None] + labs for b in [None] + labs for st in (None, '1', '2', '-1')]
         pos_br = ([('pi', str(i), w0) for i in range(-n - 1, n + 1)] +
                   [('ps', a, b, st, w0) for a in (None, '0', '1', '-1') for b in (None, '0', '2', '-1', str(n)) for st in (None, '2')] +
                   [('nl', '1-1')])
@@ -1076,7 +1192,8 @@ def gen(rng, tier):
     n_expr = 2000 if tier == 'quick' else 150000
     for i in range(n_expr):
         r = rng.random()
-        opts = {'undef': r < 0.15, 'd0': 0.15 <= r < 0.2, 'locals': 0.2 <= r < 0.3}
+        opts = {'undef': r < 0.15, 'd0': 0.15 <= r < 0.2, 'locals': 0.2 <= r < 0.3,
+                'model': 'base' if 0.3 <= r < 0.38 else 'alias' if 0.38 <= r < 0.42 else None}
         if i % 10 == 0:
             opts['span_kind'] = SPAN_KINDS[(i // 10) % len(SPAN_KINDS)]
         cases.append(make_expr_case(rng, None, opts))
@@ -1112,8 +1229,8 @@ def _ref_lead(x, p=1, *, fill_value=float('nan')):
 def _ref_diff(x, d=1, *, fill_value=float('nan'), zero_identity=False):
     import numpy as np
     x = _need_1d(x)
-    if d < 0:
-        raise _OutOfScope()
+    if d < 0 or x.dtype.kind not in 'fiu':
+        raise _OutOfScope()                              # d < 0, or an array on which `-` is not defined (str, bool, object)
     if d == 0 and zero_identity:
         return x
     n = len(x)
@@ -1123,29 +1240,30 @@ def _ref_diff(x, d=1, *, fill_value=float('nan'), zero_identity=False):
     return out
 
 
-def _ref_ns(case, zero_identity=False):
+def _ref_ns(case, zero_identity=False, series=None):
     import numpy as np
     ns = {'exp': np.exp, 'log': np.log, 'lag': _ref_lag, 'lead': _ref_lead,
           'diff': lambda x, d=1, *, fill_value=float('nan'): _ref_diff(x, d, fill_value=fill_value, zero_identity=zero_identity),
           'dlog': lambda x, d=1, *, fill_value=float('nan'): _ref_diff(np.log(_need_1d(x)), d, fill_value=fill_value, zero_identity=zero_identity)}
     for name, vals in case['vars']:
         ns[name] = np.array([lib.unhex(v) for v in vals], dtype=float)
+    for name, kind, vals in series or []:                # model containers: every name of the index, with its own dtype
+        ns[name] = (np.array([lib.unhex(v) for v in vals], dtype=float) if kind == 'f' else
+                    np.array(vals, dtype=np.int64) if kind == 'i' else np.array(vals))
     ns.update(_locals_of(case) or {})                    # caller-supplied locals override variables, which override the helpers
     return ns
 
 
-def _ref_eval(case, mode, zero_identity=False):
+def _ref_eval(case, mode, zero_identity=False, series=None):
     import warnings
     try:
         text = render(case['ast'], None, mode, case['span'])
     except KeyError:
         return ['raise', 'KeyError']
-    except _Mixed:
-        return ['oos']
     try:
         with warnings.catch_warnings():
             warnings.simplefilter('ignore')
-            return _canon(eval(text, {'__builtins__': {'True': True, 'slice': slice}}, _ref_ns(case, zero_identity)))
+            return _canon(eval(text, {'__builtins__': {'True': True, 'slice': slice}}, _ref_ns(case, zero_identity, series)))
     except _OutOfScope:
         return ['oos']
     except NameError as e:
@@ -1170,7 +1288,8 @@ def oracle_expr(case, obs, fails):
     if not obs.get('locals_same', True):
         bad('C16|eval|locals-altered', 'eval(%r) altered the caller\'s locals' % case['expr'])
     got = obs['eval']
-    ref = _ref_eval(case, 'ref')
+    ser = obs.get('series')
+    ref = _ref_eval(case, 'ref', False, ser)
     if got == ref or ref == ['oos']:           # helper applied to something that is not a 1-D array / d < 0: outside the statement
         return
     if case['span']['type'] == 'period' and any(l[0] == 'np' for l in case.get('locals') or []) and 'np.int64' in str(obs.get('text')):
@@ -1181,14 +1300,67 @@ def oracle_expr(case, obs, fails):
         bad(SIG_LBL, 'a backticked label containing a colon / closing bracket / edge backtick is not read as that label: eval(%r) = %s, label indexing gives %s'
             % (case['expr'], str(got)[:120], str(ref)[:120]))
         return
+    if case.get('model') and 'iterations' in names_of(case['ast']) and calls_of(case['ast']) and got[:2] in (['raise', 'ValueError'], ['raise', 'OverflowError']):
+        bad(SIG_INTFILL, 'a helper applied to the integer series `iterations` of a model: the float fill value is cast to int64 even when nothing '
+            'is stored (empty selection): eval(%r) = %s, expected %s' % (case['expr'], str(got)[:80], str(ref)[:80]))
+        return
+    if any(b[0] == 'mx' for b in brackets_of(case['ast'])):
+        bad(SIG_MIXED, 'the integer end of a mixed slice does not keep its Python meaning (a plain stop is incremented, a plain item goes through int()): '
+            'eval(%r) = %s, with the integer read as Python reads it %s' % (case['expr'], str(got)[:120], str(ref)[:120]))
+        return
+    if any(b[0] == 'ls' and b[3] is not None and int(b[3]) < 0 and (b[1] is not None or b[2] is not None) for b in brackets_of(case['ast'])):
+        bad(SIG_NEGSTEP, 'a label slice with a negative step is not the inclusive descending slice (the stop label and the period after it are missing; a slice-valued start location starts at its FIRST period): '
+            'eval(%r) = %s, the inclusive descending slice gives %s' % (case['expr'], str(got)[:120], str(ref)[:120]))
+        return
     if any(b[0] in NOT_ALONE for b in brackets_of(case['ast'])):
         bad(SIG_NEST, 'a backticked label that does not stand alone in its bracket (nested subscript, parentheses, slice broken across lines) is not '
             'resolved: eval(%r) = %s, the intended meaning gives %s' % (case['expr'], str(got)[:120], str(ref)[:120]))
         return
-    if _d0(case) and got == _ref_eval(case, 'ref', True):
+    if _d0(case) and got == _ref_eval(case, 'ref', True, ser):
         bad(SIG26, 'diff(x, 0) returns x itself where the stated formula x[i] - x[i-0] gives zeros (inside eval: %r)' % case['expr'])
         return
     bad('C16|eval|value-differs-from-direct-evaluation', 'eval(%r) = %s but direct NumPy evaluation of the intended meaning gives %s' % (case['expr'], str(got)[:200], str(ref)[:200]))
+
+
+def oracle_helper_other(case, obs, fails):
+    """float32 / bool / object arrays: lag(x,p)[i] = x[i-p] inside, fill_value outside; diff(x,d)[i] = x[i]-x[i-d]; compared as values"""
+    import numpy as np
+
+    def bad(sig, what):
+        fails.append({'sig': sig, 'what': what})
+    f, p, dt = case['f'], case['p'], case['dtype']
+    fill = lib.unhex(case['fill'])
+    x = [bool(v) for v in case['x']] if dt == 'b' else [lib.unhex(v) for v in case['x']]
+    n = len(x)
+    if obs['x_after'] != [int(v) for v in x] if dt == 'b' else obs['x_after'] != case['x']:
+        bad('C16|%s|input-modified' % f, '%s(x, %d) modified its %s argument' % (f, p, dt))
+    if f == 'diff' and p <= 0:
+        return                                   # d < 0 outside the statement; d = 0 is finding #26 (reported by the float64 cases)
+    out = obs['out']
+    if out[0] != 'ret':
+        bad('C16|%s|raised' % f, '%s(%s array, %d, fill_value=%r) raised %s' % (f, dt, p, fill, out[1]))
+        return
+    got = [lib.unhex(g) if isinstance(g, str) else g for g in out[1]]
+    if len(got) != n:
+        bad('C16|%s|length' % f, '%s(x, %d): result length %d for an input of length %d' % (f, p, len(got), n))
+        return
+    xa = np.array(x, dtype={'f4': np.float32, 'b': bool, 'O': object}[dt])
+    q = -p if f == 'lead' else p
+    with np.errstate(all='ignore'):
+        if f == 'diff':
+            want = [(xa[i] - xa[i - p]) if i >= p else fill for i in range(n)]
+        else:
+            want = [xa[i - q] if 0 <= i - q < n else fill for i in range(n)]
+
+    def same(a, b):
+        a, b = float(a), float(b)
+        return a == b or (a != a and b != b)
+    wrong = [i for i in range(n) if not same(got[i], want[i])]
+    fillpos = [i for i in range(n) if (i < p if f == 'diff' else not (0 <= i - q < n))]
+    if wrong and dt == 'b' and all(i in fillpos for i in wrong):
+        bad(SIG_INTFILL, '%s(bool array, %d, fill_value=%r) stores the fill value cast to bool: %s' % (f, p, fill, got))
+    elif wrong:
+        bad('C16|%s|values' % f, '%s(%s array, %d, fill_value=%r): got %s want %s' % (f, dt, p, fill, got, want))
 
 
 def oracle_helper(case, obs, fails):
@@ -1196,6 +1368,8 @@ def oracle_helper(case, obs, fails):
         fails.append({'sig': sig, 'what': what})
     if case['rank'] != 1:
         return                                   # the statement is about 1-D arrays
+    if case['dtype'] in OTHER_DTYPES:
+        return oracle_helper_other(case, obs, fails)
     f, p = case['f'], case['p']
     isf = case['dtype'] == 'f'
     x = [lib.unhex(v) for v in case['x']] if isf else list(case['x'])
@@ -1293,7 +1467,7 @@ def oracle_ns(case, obs, fails):
     else:
         want = ['raise', 'AttributeError', name, True]
     if obs['out'] != want:
-        if name in LEAK_NAMES and obs['out'] == ['val', 'G:' + name]:
+        if name in LEAK_NAMES and obs['out'] == ['val', 'G:' + name] and not case.get('globals_empty'):
             bad(SIG_LEAK, 'eval(%r): a name that is neither a local, a variable nor a helper evaluates to a global of fsic/core/containers.py (%s) instead of raising AttributeError' % (name, obs['out'][1]))
         else:
             bad('C16|eval|namespace-precedence', 'eval(%r) with vars=%s locals=%s builtins=%s gave %s, expected %s' % (name, case['vars'], case['locals'], case['bi'], obs['out'], want))
@@ -1346,18 +1520,13 @@ def oracle(case, obs):
     elif k == 'text':
         # the one thing the statement says about raw text: an expression without a backtick is not rewritten by eval (checked in
         # expr cases); here only "a failed rewrite raises one of the documented classes"
-        t = obs['text']
-        if t[0] == 'raise' and t[1] not in ('ValueError', 'KeyError', 'AttributeError'):
-            fails.append({'sig': 'C16|_resolve_expression_indexes|foreign-exception', 'what': '%r raised %s' % (case['s'], t[1])})
+        pass                                             # raw texts: the statement says nothing; they feed K only
     return fails
 
 
 def guard(case, obs):
     """Inside the guard class of a kept finding the model mirrors a defect; K is not compared there."""
-    k = case['kind']
-    if k == 'helper':
-        return case['f'] == 'diff' and case['p'] == 0 and not isinstance(case['fill'], dict)
-    return False
+    return False                                         # the models mirror every kept finding exactly: K is compared everywhere
 
 
 def nontrivial(case, obs):
@@ -1452,7 +1621,8 @@ EXTRACT_V = '''From Coq Require Import ZArith List String Ascii.
 From Coq Require Import ExtrOcamlBasic ExtrOcamlString.
 Require Import Fsic.Base.PyBase Fsic.Funcs.EvalIdx.
 Extraction Language OCaml.
-Extraction "evalidx.ml" eval_text_span rewrite_span index_sem ns_case parse_int_raw parse_pyint.
+Require Import Fsic.Funcs.EvalIdxNegStep.
+Extraction "evalidx.ml" eval_text_span rewrite_span index_sem index_sem_any ns_case parse_int_raw parse_pyint.
 '''
 
 DRIVER_ML = r'''open Evalidx
@@ -1510,7 +1680,7 @@ let () =
        | ["W"; sp; e] -> print_endline (out_string (rewrite_span (span_of sp) (explode (unhex e))))
        | ["I"; e] -> print_endline (show_oz (parse_int_raw (explode (unhex e))) ^ " " ^ show_oz (parse_pyint (explode (unhex e))))
        | ["M"; n; e] ->
-           (match index_sem (nat_of_int (int_of_string n)) (explode (unhex e)) with
+           (match index_sem_any (nat_of_int (int_of_string n)) (explode (unhex e)) with
             | None -> print_endline "N"
             | Some l -> print_endline ("P " ^ String.concat "," (List.map (fun p -> string_of_int (int_of_nat p)) l)))
        | ["N"; tbl; outer; vars; locals; bi; name] ->
@@ -1543,7 +1713,7 @@ def ensure_driver():
     d = _driver_dir()
     os.makedirs(d, exist_ok=True)
     exe = os.path.join(d, 'driver')
-    deps = [os.path.join(lib.COQ, 'Funcs', 'EvalIdx.vo'), os.path.join(lib.COQ, 'Base', 'PyBase.vo'), os.path.join(lib.COQ, 'Gen', 'Generated.vo'),
+    deps = [os.path.join(lib.COQ, 'Funcs', 'EvalIdx.vo'), os.path.join(lib.COQ, 'Funcs', 'EvalIdxNegStep.vo'), os.path.join(lib.COQ, 'Base', 'PyBase.vo'), os.path.join(lib.COQ, 'Gen', 'Generated.vo'),
             os.path.abspath(__file__)]
     with open(os.path.join(d, '.lock'), 'w') as lk:
         fcntl.flock(lk, fcntl.LOCK_EX)
@@ -1563,6 +1733,22 @@ def ensure_driver():
         if p.returncode != 0:
             return None, 'ocaml build failed: ' + (p.stderr or p.stdout)[-600:]
         return exe, None
+
+
+_TRAILING_COLON = re.compile(r'\[([^\[\]:]*):([^\[\]:]*):\]')
+
+
+def _same_line(model_line, want_line):
+    """K on rewritten texts: equal, or equal once an empty step is dropped ([a:b:] and [a:b] are the same subscript)"""
+    if model_line == want_line:
+        return True
+    if model_line[:2] == 'R ' and want_line[:2] == 'R ':
+        try:
+            a, b = _unhex(model_line[2:]), _unhex(want_line[2:])
+        except ValueError:
+            return False
+        return _TRAILING_COLON.sub(r'[\1:\2]', a) == _TRAILING_COLON.sub(r'[\1:\2]', b)
+    return False
 
 
 def _lab_item(lab):
@@ -1650,13 +1836,15 @@ def correspond(cases, obs, tag, tier):
         outl = p.stdout.split('\n')
         if p.returncode != 0 or len(outl) < len(lines):
             return sorted(bad), errors + ['driver failed rc=%s: %s' % (p.returncode, (p.stderr or '')[-400:])]
+        drv = {}
         for i, ol in zip(idx, outl):
             c, o = cases[i], obs[i]
             k = c['kind']
+            drv[i] = ol
             if k in ('expr', 'text'):
                 t = o['text']
                 want = 'R ' + _hex(t[1]) if t[0] == 'ret' else 'E ' + (t[1] if t[1] in ('ValueError', 'KeyError', 'AttributeError', 'IndexError', 'TypeError', 'NotImplementedError') else 'OtherError')
-                ok = ol == want
+                ok = _same_line(ol, want)
                 if ok and k == 'expr' and t[0] == 'raise':
                     ok = o['eval'][:2] == ['raise', t[1]]          # a rewriting error is what eval() raises
             elif k == 'sem':
@@ -1706,16 +1894,17 @@ def correspond(cases, obs, tag, tier):
             if p2.returncode != 0 or len(out2) < len(hlines):
                 return sorted(bad), errors + ['driver failed on history steps rc=%s' % p2.returncode]
             for i, ol, w in zip(hidx, out2, hwant):
-                if ol != w:
+                if not _same_line(ol, w):
                     bad.append(i)
-        # ---- cross-check of the extraction: a sample re-evaluated inside Coq by vm_compute
+        # ---- cross-check of the EXTRACTION: a sample re-evaluated inside Coq by vm_compute and compared with the extracted
+        #      model's own answer (not with the implementation: that comparison is the one above)
         sample = [i for i in idx if cases[i]['kind'] in ('expr', 'text') and cases[i]['span']['type'] != 'period'
                   and all(ord(ch) < 256 for ch in (cases[i].get('expr') or cases[i].get('s')))][::max(1, len(idx) // 120)][:150]
         items = []
         for i in sample:
             c, o = cases[i], obs[i]
-            t = o['text']
-            out = '(Ret %s)' % lib.cstring(t[1]) if t[0] == 'ret' else '(Raise %s)' % (t[1] if t[1] in ('ValueError', 'KeyError', 'AttributeError') else 'OtherError')
+            ol = drv[i]
+            out = '(Ret %s)' % lib.cstring(_unhex(ol[2:])) if ol[:2] == 'R ' else '(Raise %s)' % (ol[2:] if ol[2:] in ('ValueError', 'KeyError', 'AttributeError') else 'OtherError')
             items.append('(mkX %s %s %s %s)' % (_c_span(c), lib.cbool(c['kind'] == 'text'), lib.cstring(c.get('expr') if c['kind'] == 'expr' else c['s']), out))
         if items:
             b, e = lib.run_coq_cases(tag + '_x', PRE_H.replace('Open Scope float_scope.', 'Open Scope string_scope.'), items, 'bad_idx check_x 0%nat cs', shard=40)
